@@ -35,6 +35,10 @@ _re_ident_or_num = re.compile(r'''(?x)
 ''')
 
 
+# Bidirectional formatting characters: the lexer rejects them unless escaped.
+_BIDI_CONTROLS = '\u202a\u202b\u202c\u202d\u202e\u2066\u2067\u2068\u2069'
+
+
 def escape_string(s: str) -> str:
     # characters escaped according to
     # https://www.edgedb.com/docs/reference/edgeql/lexical#strings
@@ -49,6 +53,9 @@ def escape_string(s: str) -> str:
     result = result.replace('\n', '\\n')
     result = result.replace('\r', '\\r')
     result = result.replace('\t', '\\t')
+
+    for c in _BIDI_CONTROLS:
+        result = result.replace(c, f'\\u{ord(c):04x}')
 
     return result
 
